@@ -78,8 +78,8 @@ impl Property for C07 {
     }
     fn runs(&self, tier: Tier) -> u64 {
         match tier {
-            Tier::Quick => 40000,
-            Tier::Thorough => 400000,
+            Tier::Quick => 300000,
+            Tier::Thorough => 3000000,
         }
     }
     fn rule(&self) -> &'static str {
